@@ -283,6 +283,11 @@ func genWorkflow(r *rng, o genOpts) *AWf {
 	if o.evalFail {
 		w.InputFields = append(w.InputFields, AField{Name: "opt", Type: "string", Required: false},
 			AField{Name: "z", Type: "int", Required: false, Default: "0"}, AField{Name: "lst", Type: "liststring", Required: false})
+		if r.chance(1, 25) {
+			// a default that is not JSON: the workflow has to be refused when it is prepared (the SDK decodes defaults on
+			// first use and panics on this one - a run that omits the field would die)
+			w.InputFields[len(w.InputFields)-2].Default = r.pick([]string{"{", "[1,", "1 2", "nul"})
+		}
 	}
 	hasField := func(n string) bool {
 		for _, f := range w.InputFields {
